@@ -51,7 +51,7 @@ ORACLES = {
         'parser::is_at_end': ['incan::emit_slice'], 'parser::advance': ['incan::emit_slice'], 'parser::check': ['incan::emit_slice'],
         'parser::match_token': ['incan::emit_slice'], 'parser::expect': ['incan::emit_slice'],
         '*': ['core::str_char_at', 'core::str_slice', 'stdlib::str_index', 'stdlib::str_slice', 'stdlib::list_get', 'stdlib::list_get_mut',
-              'stdlib::list_slice', 'stdlib::dict_get', 'stdlib::dict_get_str', 'stdlib::range', 'incan::emit_slice', 'incan::emit_range'],
+              'stdlib::list_slice', 'stdlib::dict_get', 'stdlib::dict_get_str', 'stdlib::range', 'incan::emit_slice', 'incan::emit_range', 'incan::multifile_index'],
     },
     'C07': {
         'adapters::extract_int_literal': ['incan::exponent_kind'], 'adapters::pow_exponent_kind_from_ast': ['incan::exponent_kind'],
@@ -65,7 +65,7 @@ ORACLES = {
         'lowering::lower_statement(CompoundAssignment)': ['incan::emit_promotion', 'incan::compound_assign'],
         'lowering::lower_expr(Binary)': ['incan::emit_promotion', 'incan::static_type'],
         'checker::types_compatible(int/float)': ['incan::static_type'], 'checker::check_return': ['incan::static_type'], 'checker::eval_const_expr(arithmetic)': ['incan::static_type'], 'checker::check_assignment': ['incan::static_type'],
-        '*': ['core::policy', 'incan::exponent_kind', 'incan::binop_plan', 'incan::static_type', 'incan::emit_promotion', 'incan::static_type_nested', 'incan::compound_assign', 'incan::emit_division', 'incan::static_type_sources'],
+        '*': ['core::policy', 'incan::exponent_kind', 'incan::binop_plan', 'incan::static_type', 'incan::emit_promotion', 'incan::static_type_nested', 'incan::compound_assign', 'incan::emit_division', 'incan::static_type_sources', 'incan::multifile_promotion'],
     },
     'C19': {
         'lsp::offset_to_position': ['lsp::offset_to_position', 'lsp::round_trip', 'lsp::monotone', 'lsp::span_to_range'],
